@@ -1,2 +1,7 @@
 -- Root of the `SkoolVerif` library: every model, proof and property module.
 import SkoolVerif.Model.Z80Rle
+import SkoolVerif.Prelude.Proto
+import SkoolVerif.Prelude.SimProto
+import SkoolVerif.Props.C09
+import SkoolVerif.Proofs.SimFrame
+import SkoolVerif.Proofs.SimWf
